@@ -210,6 +210,23 @@ pub fn run(ctx: &Ctx) -> i32 {
             w.check(t.len() as u64, || sdesc(t), |st| eval_str(t, st));
         });
     }
+    // 2f. the string image of ES-P (run + island + run + foreign tail; byte 0x80 becomes e-acute), on the
+    //     Latin-1 path and, behind a euro sign, on the UTF-8 path
+    {
+        let fam = gen::es_p();
+        let n = fam.size();
+        ctx.par((n + 255) / 256, |c, w| {
+            w.label(|| format!("string image of ES-P chunk {}", c));
+            let mut b = Vec::new();
+            for i in c * 256..((c + 1) * 256).min(n) {
+                fam.get(i, &mut b);
+                let t: String = b.iter().map(|x| if *x >= 0x80 { 'é' } else { *x as char }).collect();
+                w.check(t.len() as u64, || sdesc(&t), |st| eval_str(&t, st));
+                let u = format!("€{}", t);
+                w.check(u.len() as u64, || sdesc(&u), |st| eval_str(&u, st));
+            }
+        });
+    }
     // 3. strings of length 2..3 around the Latin-1 boundaries
     let edge: Vec<char> = [0x1Fu32, 0x20, 0x7E, 0x7F, 0x9F, 0xA0, 0xFF, 0x100].iter().map(|u| char::from_u32(*u).unwrap()).collect();
     ctx.seq(|w| {
@@ -267,7 +284,7 @@ pub fn run(ctx: &Ctx) -> i32 {
         "evaluations": ctx.evaluations(),
         "distinct_nontrivial": ctx.counter("nontrivial"),
         "rule": format!("every Unicode scalar value (1,112,064) as a one-character string through encode_str -> data_codewords -> decode_str, and through utf8_to_latin1; all strings over a 12-character class alphabet \
-(ASCII letters/digit, RS, EOT, e-acute, U+0080, euro, emoji, ~, NBSP, DEL) of length <= {} and over 24 characters of length <= {}, each (up to length 3) also inside the macro 05/06 envelope (length <= 3); every scalar value (quick tier: the whole BMP plus, in the astral planes, the first and last 64 scalars of every 4096-block and every scalar whose low six bits are 0, 0x1F or 0x3F; thorough tier: all of them) isolated between two runs of upper-case letters, of lower-case letters and of digits; long strings of seven non-ASCII units with payload lengths 250m-3..250m+3 bytes (m = 1..6), bare and after \"A\" / \"12\"; a run of 249..251 Latin-1 characters (124..126 two-byte characters on the UTF-8 path) followed by an EDIFACT-favouring middle part of every length 0..40 and six suffixes; a length sweep (runs of 0..130 characters of five classes followed by one of 16 endings (12 single characters, two digits, two digits after a non-Latin-1 character ...), plain and inside the macro 05 envelope); all strings of length 2..3 over the Latin-1 boundary characters; \
+(ASCII letters/digit, RS, EOT, e-acute, U+0080, euro, emoji, ~, NBSP, DEL) of length <= {} and over 24 characters of length <= {}, each (up to length 3) also inside the macro 05/06 envelope (length <= 3); every scalar value (quick tier: the whole BMP plus, in the astral planes, the first and last 64 scalars of every 4096-block and every scalar whose low six bits are 0, 0x1F or 0x3F; thorough tier: all of them) isolated between two runs of upper-case letters, of lower-case letters and of digits; long strings of seven non-ASCII units with payload lengths 250m-3..250m+3 bytes (m = 1..6), bare and after \"A\" / \"12\"; a run of 249..251 Latin-1 characters (124..126 two-byte characters on the UTF-8 path) followed by an EDIFACT-favouring middle part of every length 0..40 and six suffixes; the string image of ES-P (run + island + run + foreign tail), bare and behind a euro sign; a length sweep (runs of 0..130 characters of five classes followed by one of 16 endings (12 single characters, two digits, two digits after a non-Latin-1 character ...), plain and inside the macro 05 envelope); all strings of length 2..3 over the Latin-1 boundary characters; \
 latin1_to_utf8 on all 256 bytes, 65,536 pairs and every byte at five positions of inputs of 15..64 bytes against ISO 8859-1 by rule, utf8_to_latin1 as its inverse. Oracle: round trip; printable Latin-1 => no ECI and Latin-1 bytes (reference decoder R5); otherwise exactly one UTF-8 designator (241 27) first (after a macro codeword) and UTF-8 payload. \
 All cases distinct; non-trivial = UTF-8/ECI path taken or helper defined.", ctx.tier.pick(5, 6), ctx.tier.pick(3, 4)),
         "exhaustive": true,
